@@ -123,4 +123,10 @@ EventsOk ==
         /\ Cardinality(SeqSetOf(ds[w])) = Len(ds[w])
         /\ \A h \in SeqSetOf(ds[w]) : S!ResolveEntity(W[w], h[1], h[2]) < 0
         /\ \A h \in SeqSetOf(cr[w]) \ SeqSetOf(ds[w]) : S!ResolveEntity(W[w], h[1], h[2]) >= 0
+
+\* Refinement: the two-world slot-map model implements the abstract worlds of AbsWorld.tla
+DenseSetOf(s) == {<<s.dpos[i], s.dver[i]>> : i \in {j \in 0..(MaxCap - 1) : j < s.len}}
+AW == INSTANCE AbsWorld WITH Worlds <- Worlds, Tokens <- HandleU, WithEvents <- Events,
+                             wEx <- ex, wLive <- [w \in Worlds |-> DenseSetOf(W[w])], wCr <- cr, wDs <- ds
+RefinesW == AW!WSpec
 =============================================================================
